@@ -18,7 +18,7 @@ import (
 // (verif/mc/purity): results do not alias shared buffers, do not depend on earlier calls, are the caller's own.
 func histories(c *vf.Ctx) {
 	msgs := [][]byte{{}, {1}, enum.Counter(15, 1), enum.Counter(16, 1), enum.Counter(17, 1), enum.Counter(33, 9)}
-	purity.Check(c, "C12/history/pkcs7.Pad(16)", "pkcs7.Pad(m,16)", msgs, func(in []byte) [][]byte {
+	purity.CheckAppendStyle(c, "C12/history/pkcs7.Pad(16)", "pkcs7.Pad(m,16)", msgs, func(in []byte) [][]byte {
 		b, err := pkcs7.Pad(in, 16)
 		if err != nil {
 			return nil
